@@ -249,7 +249,19 @@ def run_property(prop, tier, seed, mods, jobs=16, only='', rebaseline=False, t0=
         if k['id'] not in seen_known:
             seen_known.add(k['id'])
             print(f'KNOWN-FINDING: property={prop} {k["id"]}: {k["what"]}')
-    for v in violations[:20]:
+    # print at most 20, but one per contract first (so that no failing contract is hidden behind the many cases of
+    # another one), those that carry a failing input before those that do not
+    by_contract = {}
+    for v in violations:
+        by_contract.setdefault(v.get('contract', '?'), []).append(v)
+    ordered = []
+    rank = 0
+    while len(ordered) < len(violations):
+        layer = [vs[rank] for vs in by_contract.values() if len(vs) > rank]
+        layer.sort(key=lambda v: bool(v.get('no_input')))
+        ordered += layer
+        rank += 1
+    for v in ordered[:20]:
         path = os.path.join(rdir, _safe(v['obligation']) + '.json')
         with open(path, 'w') as f:
             json.dump({'property': prop, **v}, f, indent=1, default=str)
